@@ -31,6 +31,7 @@ PROPERTY = 'C09'
 T, PAUSED, ACTIVE = CoroutineState.TERMINATED, CoroutineState.PAUSED, CoroutineState.ACTIVE
 ITEMS = (None, 1, 2, 'ret')
 ITEMS_NONPOS = (None, 0, -1, 1, 2, 'ret')   # 0 and a negative number mean "next frame" exactly like None
+RET_VALUES = (None, 0, False, '', (), 7, 'x')     # what a body may return (falsy non-None values included)
 PERMS3 = [(0, 1, 2), (0, 2, 1), (1, 0, 2), (1, 2, 0), (2, 0, 1), (2, 1, 0)]
 
 
@@ -62,11 +63,21 @@ class Ctx:
     pass
 
 
-def h_life(sp, G=2, L=4, K=2, inside=1, outside_routes=True, nonpos=False, prefix_waits=None):
+def same_value(got, exp):
+    """The promise must hold the returned object: identity for the singletons, type + equality otherwise
+    (0 == False == 0.0, so equality alone would not do)."""
+    if exp is None or exp is True or exp is False:
+        return got is exp
+    return type(got) is type(exp) and got == exp
+
+
+def h_life(sp, G=2, L=4, K=2, inside=1, outside_routes=True, nonpos=False, prefix_waits=None, ret_choice=False):
     """nonpos: bodies may also yield 0 and -1.  prefix_waits: three distinct positive waits; the history then
     starts with a built prefix  start(a) start(b) start(c) process(1)  in which the three coroutines yield a
     solver-chosen permutation of these waits (all PAUSED, every shape of a three-entry wait heap), followed by
-    the L free operations."""
+    the L free operations.  ret_choice: the value a body returns is a solver choice among RET_VALUES (7-way fork
+    per return); otherwise it is taken from RET_VALUES in rotation (no fork, every configuration still meets
+    every value)."""
     items = ITEMS_NONPOS if nonpos else ITEMS
     _st = CoroutineState
     sp.check(len({_st.ACTIVE, _st.PAUSED, _st.TERMINATED}) == 3 and _st.ACTIVE is not _st.PAUSED
@@ -118,7 +129,7 @@ def h_life(sp, G=2, L=4, K=2, inside=1, outside_routes=True, nonpos=False, prefi
                 sp.check(p.state == exp, 'promise-state', '%s: a promise of %s reports %s, expected %s' % (
                     when, s.name, getattr(p.state, 'name', p.state), exp.name))
             if s.promise is not None and not s.value_open:
-                sp.check(s.promise.value == s.exp_value, 'promise-value',
+                sp.check(same_value(s.promise.value, s.exp_value), 'promise-value',
                          '%s: promise of %s holds %r, expected %r' % (when, s.name, s.promise.value, s.exp_value))
         if types:
             for bad in (None, 3, body):
@@ -159,7 +170,7 @@ def h_life(sp, G=2, L=4, K=2, inside=1, outside_routes=True, nonpos=False, prefi
         if s.promise is not None:
             s.old.append(s.promise)
         s.promise = p
-        s.exp_value, s.value_open = None, True      # what a promise holds before the return is not stated
+        s.exp_value, s.value_open = None, False     # nothing has been returned yet: the initial None
         s.alive, s.held, s.due, s.sched = True, True, None, 'A'
         H.used = max(H.used, slots.index(s) + 1)
         if H.in_frame:
@@ -245,15 +256,24 @@ def h_life(sp, G=2, L=4, K=2, inside=1, outside_routes=True, nonpos=False, prefi
         s.steps += 1
         sp.note('%s %s' % (who, 'returns' if item == 'ret' else 'yields %r' % (item,)))
         if item == 'ret':
+            if ret_choice and not H.epilogue:
+                rv = RET_VALUES[sp.choose(len(RET_VALUES), 'ret.%s' % s.name)]
+            else:
+                rv = RET_VALUES[(slots.index(s) + s.steps + H.frame) % len(RET_VALUES)]
+            sp.note('%s    value %r' % (who, rv))
             s.finished = s.exhausted = True
             if s.alive:
                 s.alive = False
-                s.exp_value, s.value_open = 'R:' + s.name, False
+                s.exp_value, s.value_open = rv, False
                 sp.cover('finish-value')
+                if rv is not None and not rv:
+                    sp.cover('falsy-return-value')
+                elif rv is None:
+                    sp.cover('none-return-value')
             else:
                 s.value_open = True     # killed during its last step: the statement does not say
             s.sched, s.due = 'A', 2
-            return ('ret', 'R:' + s.name)
+            return ('ret', rv)
         if item is not None and item > 0:
             s.sched, s.wait, s.acc = 'P', item, 0
             if not s.alive:
@@ -368,10 +388,13 @@ _NT = ['restart-before-flush', 'restart-killed-waiter', 'restart-after-flush', '
        'inside-start-other', 'inside-kill-other', 'inside-kill-self', 'inside-restart-other',
        'inside-restart-self', 'inside-start-self']
 
+_NT += ['falsy-return-value', 'none-return-value']
 _NT_OUT = [t for t in _NT if not t.startswith('inside-')]
 _NT_NONPOS = ['yield-zero', 'yield-negative']
 _NT_HEAP = ['restart-before-flush', 'restart-killed-waiter', 'kill-paused', 'wait-elapsed', 'released-killed',
-            'released-finished', 'finish-value', 'start-running-ValueError', 'kill-not-running-ValueError']
+            'released-finished', 'finish-value', 'falsy-return-value', 'none-return-value', 'start-running-ValueError', 'kill-not-running-ValueError']
+
+_NT_VALUES = ['finish-value', 'falsy-return-value', 'none-return-value', 'kill-active', 'released-finished']
 
 HARNESSES = {
     'life': dict(fn=h_life, nontrivial=_NT, required=_NT),
@@ -382,6 +405,8 @@ HARNESSES = {
     'life-nonpos-outside': dict(fn=h_life, nontrivial=_NT_OUT + _NT_NONPOS, required=_NT_OUT + _NT_NONPOS),
     # ... after the built prefix with three waiters of distinct waits
     'life-heap': dict(fn=h_life, nontrivial=_NT_HEAP, required=_NT_HEAP),
+    # ... with the returned value as an explicit solver choice (short histories)
+    'life-values': dict(fn=h_life, nontrivial=_NT_VALUES, required=_NT_VALUES),
 }
 
 _HEAP = dict(G=3, K=2, prefix_waits=(1, 2, 3))
@@ -392,6 +417,7 @@ TIERS = {
         ('life', dict(G=3, L=4, K=2, inside=1)),
         ('life-nonpos-outside', dict(G=2, L=5, K=2, inside=0, nonpos=True)),
         ('life-heap', dict(L=3, inside=0, **_HEAP)),
+        ('life-values', dict(G=2, L=4, K=2, inside=0, ret_choice=True)),
     ],
     'thorough': [
         ('life', dict(G=2, L=6, K=2, inside=1)),
@@ -402,6 +428,8 @@ TIERS = {
         ('life-nonpos', dict(G=3, L=4, K=2, inside=1, nonpos=True)),
         ('life-heap', dict(L=4, inside=0, **_HEAP)),
         ('life-heap', dict(L=3, inside=1, **_HEAP)),
+        ('life-values', dict(G=2, L=4, K=2, inside=1, ret_choice=True)),
+        ('life-values', dict(G=2, L=5, K=2, inside=0, ret_choice=True)),
     ],
 }
 BUDGET_S = {'quick': 180, 'thorough': 2400}
@@ -426,10 +454,13 @@ BOUNDS = {
              'incl. the running one, items None/0/-1/1/2/return), (G=3, L=4, 1 inside action, items '
              'None/1/2/return), (G=2, L=5, no inside action, items None/0/-1/1/2/return), (heap prefix: three '
              'coroutines PAUSED with a solver-chosen permutation of the waits 1,2,3, then L=3 free operations); '
+             '(G=2, L=4, no inside action, returned value solver-chosen among None,0,False,\'\',(),7,\'x\'); in all '
+             'other configurations the returned value rotates through the same seven values; '
              'always followed by flushing frames (longest wait + 2), <=2 items per body then return, dt=1',
     'thorough': 'items None/1/2/return: (G=2, L=6, 1 inside action), (G=3, L=5, 1), (G=2, L=4, 2), (G=3, L=6, 0); '
                 'items None/0/-1/1/2/return: (G=2, L=5, 1), (G=3, L=4, 1); heap prefix (waits 1,2,3 permuted): '
-                'L=4 without and L=3 with 1 inside action; otherwise as quick',
+                'L=4 without and L=3 with 1 inside action; solver-chosen returned value: (G=2, L=4, 1 inside action), '
+                '(G=2, L=5, none); otherwise as quick',
 }
 ASSUMPTIONS = [
     'a coroutine (re)started from inside a body during a process call may or may not be advanced in that same '
@@ -437,9 +468,10 @@ ASSUMPTIONS = [
     'release deadlines are read leniently: finished -> end of the next process call; killed while runnable -> the '
     'call in which it would next have run (the current one only if it was certainly still due in it); killed '
     'while waiting -> the call in which its wait elapses',
-    'what a promise holds before the generator returns, after a kill, or when a coroutine is killed during its '
-    'very last step, is not stated: not checked.  Only the promise returned by the latest start must hold the '
-    'returned value; all promises of a generator must report its state',
+    'the promise returned by the latest start holds None until the generator returns (also after a kill) and '
+    'from then on exactly the returned object (identity for None/True/False, type + equality otherwise; falsy '
+    'values such as 0, False, \'\', () included); what it holds when a coroutine is killed during its very last '
+    'step is not stated and not checked; promises of earlier starts are only required to report the state',
     'starting a killed waiter makes it ACTIVE (the remaining wait is abandoned) - "ACTIVE from start"',
     'an exhausted generator object may be started again; it then terminates with value None at its next turn',
     'never-started generators are interchangeable: operations address the started ones and the first '
